@@ -107,8 +107,9 @@ func genConc(out *bufio.Writer, rng *rand.Rand, rounds int) int {
 	// (a resolver that appends to a shared slice decides by map order which of them wins)
 	for i := 0; i < 16; i++ {
 		var sb strings.Builder
-		base := []string{"2*3+4", "1+2", "7-2*3+1", "2*2*2+1-3", "9", "1+1+1+1"}[rng.Intn(6)]
-		fmt.Fprintf(&sb, "base equ %s\n", base)
+		base := []string{"2*3+4", "1+2", "7-2*3+1", "2*2*2+1-3", "9", "1+1+1+1", "1+2+3+4+5+6+7+8+9", "2*2*2*2-1-1-1-1+3*3", "zz*zz+zz", "zz+zz*2+zz"}[rng.Intn(10)]
+		// (the last two make `base` a non-leaf: its own expansion is built by appending)
+		fmt.Fprintf(&sb, "zz equ 1+2+3+4\nbase equ %s\n", base)
 		k := 2 + rng.Intn(4)
 		var uses []string
 		for j := 0; j < k; j++ {
@@ -310,6 +311,19 @@ func genConc(out *bufio.Writer, rng *rand.Rand, rounds int) int {
 			res2 := sim2.Run()
 			got2 := fmt.Sprintf("%v c=%d core=%s q0=%v q1=%v", res2, sim2.CycleCount(), coreDigest(sim2), sim2.GetWarrior(0).Queue(), sim2.GetWarrior(1).Queue())
 			fmt.Fprintf(out, "Y y%d alias one-variable-two-adds | %s ## %s\n", n, sha(refAB), sha(got2))
+			n++
+		}
+		// one variable, two adds, only the name and author changed in between
+		{
+			sim3, _ := gmars.NewSimulator(cfg)
+			v := *orig.Copy()
+			v.Name, v.Author = "first", "A"
+			h1, _ := sim3.AddWarrior(&v)
+			v.Name, v.Author = "second", "B"
+			h2, _ := sim3.AddWarrior(&v)
+			v.Name, v.Author = "third", "C"
+			got3 := fmt.Sprintf("%s/%s %s/%s %s/%s", h1.Name(), h1.Author(), h2.Name(), h2.Author(), sim3.GetWarrior(1).Name(), sim3.GetWarrior(0).Name())
+			fmt.Fprintf(out, "Y y%d alias names-of-two-adds | %s ## %s\n", n, sha("first/A second/B second/first"), sha(got3))
 			n++
 		}
 		// the other direction
